@@ -377,6 +377,9 @@ class Facts:
         return None if lo is None else lo + ka
 
 
+SUBROOT = None   # set by the panic-site audit: slice expression -> the slice it is (transitively) a sub-slice of
+
+
 def build(conds, exprs, expand=None, unsigned=(), stable=None):
     """Facts from dominating conditions `conds` [(expr, value, block)] plus axioms for every expression involved."""
     F = Facts(expand)
@@ -398,6 +401,20 @@ def build(conds, exprs, expand=None, unsigned=(), stable=None):
                 F.add(b, a, 0)
     for x in allx:
         F.axioms_for(x)
+    if SUBROOT is not None:
+        # a slice variable that only ever holds sub-slices of X (slice patterns, `rest @ ..`) is no longer than X
+        for a in list(lens):
+            v = is_len_of(a)
+            r = SUBROOT(v) if v is not None else None
+            if r is not None and sym.norm(r) != sym.norm(v):
+                root_lens = [b for b in lens if sym.norm(is_len_of(b)) == sym.norm(r)]
+                if not root_lens:
+                    ra = ("call", "core::slice::len", "core::slice::len", (sym.norm(r),), -1)
+                    F.atoms.add(ra)
+                    F.add(ra, ZERO, 0)
+                    root_lens = [ra]
+                for b in root_lens:
+                    F.add(b, a, 0, "a sub-slice is no longer than the slice it was taken from")
     for u in unsigned:
         t, k = lin(untry(u))
         F.add(t, ZERO, -k if t != ZERO else 0)
